@@ -483,10 +483,53 @@ def check_gmrf_point(cfg, field, precision, base=None):
     return bad
 
 
+def check_gmrf_history(cfg):
+    """evaluate the density, change what the scaling depends on (tree heights / weights)
+    through the public parameter interface, then read the precision matrix BEFORE the
+    density (the order the block-update operator uses): the published matrix must be the
+    one of the current state"""
+    import torch
+
+    var, mode = cfg["var"], cfg["batch"]
+    if mode != "none" or var.get("ctor") or var["kind"] not in ("time", "weighted"):
+        return []
+    N = cfg["N"]
+    field = fields_for(N, cfg["lattice_max"], cfg["seed"])[-1]
+    tau = PRECISIONS[0]
+    try:
+        base = base_dic(var, cfg["seed"], "a")
+        g = make_model(base, var, field, [tau])
+        g()
+        g.precision_matrix()
+        if var["kind"] == "time":
+            hp = base["tree.heights"]
+            hp.tensor = hp.tensor * 1.37
+        else:
+            w = g.weights
+            if not hasattr(w, "tensor"):
+                return []
+            w.tensor = w.tensor * 1.61
+        Q = _np(g.precision_matrix()).reshape(N, N)
+        lp = float(_np(g()).reshape(-1)[0])
+    except Exception as e:
+        return [("raises", f"history (evaluate, update, matrix, density) raised {_err(e)}")]
+    qf = ref.quadratic_form(Q, field)
+    want = 0.5 * (N - 1) * math.log(tau) - 0.5 * qf - 0.5 * (N - 1) * ref.LOG_2PI
+    if not close(lp, want, TOL_Q, part="gmrf"):
+        return [("density_vs_precision_matrix_after_update",
+                 f"after evaluating, changing the {'tree heights' if var['kind'] == 'time' else 'weights'} "
+                 f"and reading precision_matrix() before the density: GMRF() = {lp!r} but the published "
+                 f"matrix gives {want!r} (x={field}, tau={tau})")]
+    return []
+
+
 def work_gmrf(cfg):
     var, mode = cfg["var"], cfg["batch"]
     base = base_dic(var, cfg["seed"], "ab" if mode == "tree" else "a")
     out = {"n": 0, "nontrivial": 0, "viol": {}, "nviol": 0, "maxerr": 0.0}
+    for name, detail in check_gmrf_history(cfg):
+        out["nviol"] += 1
+        out["viol"][name] = ({"part": "gmrf_history", "cfg": cfg}, detail, gmrf_sig(cfg, name))
     for field, precision in gmrf_points(cfg):
         bad = check_gmrf_point(cfg, field, precision, base)
         out["n"] += 1
@@ -1060,6 +1103,9 @@ def replay(case):
     out = []
     if part == "gmrf":
         for name, detail in check_gmrf_point(case["cfg"], case["field"], case["precision"]):
+            out.append({"case": case, "detail": detail, "sig": gmrf_sig(case["cfg"], name)})
+    elif part == "gmrf_history":
+        for name, detail in check_gmrf_history(case["cfg"]):
             out.append({"case": case, "detail": detail, "sig": gmrf_sig(case["cfg"], name)})
     elif part == "gint":
         bad, _ = check_gint_point(case["cfg"], case["field"], case["batch"])
